@@ -43,6 +43,7 @@ import PysparklingVerif.Properties.C20
 import PysparklingVerif.Extracted.EquivC03
 import PysparklingVerif.Extracted.EquivC04
 import PysparklingVerif.Extracted.EquivC05
+import PysparklingVerif.Extracted.EquivC06
 import PysparklingVerif.Extracted.EquivC07
 import PysparklingVerif.Extracted.EquivC08
 import PysparklingVerif.Extracted.EquivC09
@@ -1703,5 +1704,9 @@ end EquivC13
 -- NO-HYPOTHESES: PysparklingVerif.Extracted.C06.takeHandler_is_takeChain
 -- NO-HYPOTHESES: PysparklingVerif.Extracted.C06.firstHandler_is_takeChain
 -- NO-HYPOTHESES: PysparklingVerif.Extracted.C06.isEmpty_calls
+-- NONVACUOUS: PysparklingVerif.Extracted.C06.take_text_end_to_end
+-- (the hypothesis `j < ops.length` with a two-stage pipeline over two partitions; the `example` next to the theorem in
+-- Extracted/EquivC06.lean evaluates the same instance by `decide`)
+example := Extracted.C06.take_text_end_to_end [Lazy.LOp.filter (fun x : Nat => x % 2 == 1), .map (· * 10)] [[1, 2, 3, 4], [5, 6]] 2 1 (by decide)
 
 end PysparklingVerif.NonVacuity
